@@ -1,5 +1,4 @@
-import McpModel.Conn.CallInv
-import McpModel.Conn.ReqInv
+import McpModel.Conn.FlagInv
 /-!
 # Property theorems for E1 — the jsonrpc2 connection (C01–C05)
 
@@ -191,5 +190,145 @@ theorem usable_write_reaches_transport (s s' : St) (r : Nat) (k : ReqCore) (hk :
   simp only [reqView, tail_cores] at hc
   refine ⟨{ k with wrote := k.wrote + 1, pc := .wr }, ?_, rfl⟩
   rw [hc]; simp [modCore, List.getElem?_modify, hk]
+
+/-! ## C05 — Close is graceful, terminates, leaves nothing running (safety part) -/
+
+/-- **no_panic_state.** None of the panics of conn.go is reachable: `retire` twice, `incoming` already
+zero in processResult, non-idle after done. -/
+theorem no_panic_state (ls : List Label) (s : St) (h : run {} ls = some s) : s.panicked = false := by
+  have i := inv_run ls inv_init h
+  have h3 : s.panicIdle = false := i.flags.np
+  have h2 : s.panicIncoming = false := i.reqs.nopanic
+  simp [St.panicked, i.calls.nopanic, h2, h3]
+
+/-- **transport_closed_at_most_once / done_once.** The transport's `Close` is called at most once (exactly
+once iff the closer was consumed), `onDone` runs at most once — exactly when `done` is closed — so the
+session is removed from its Client/Server exactly once. -/
+theorem closed_and_done_once (ls : List Label) (s : St) (h : run {} ls = some s) :
+    s.transportCloses = (if s.closerUsed then 1 else 0) ∧ s.onDone = (if s.done then 1 else 0) := by
+  have i := inv_run ls inv_init h
+  exact ⟨i.flags.tc, i.flags.od⟩
+
+/-- **done_implies_quiescent.** Once `done` is closed (Close and every Wait may return) nothing is in
+flight: no registered outgoing call, no outgoing notification being written, no unanswered incoming
+request, no dispatcher, the reader has exited, the transport has been closed, and the connection is
+shutting down. -/
+theorem done_implies_quiescent (ls : List Label) (s : St) (h : run {} ls = some s) (hd : s.done = true) :
+    s.outCalls = [] ∧ s.outNotifs = 0 ∧ s.incoming = 0 ∧ s.handlerRunning = false ∧ s.byID = [] ∧
+    s.shuttingDown = true ∧ s.reading = false ∧ s.closerUsed = true := by
+  have i := inv_run ls inv_init h
+  obtain ⟨h1, h2, h3, h4⟩ := i.flags.dn hd
+  have ho := idle_outCalls h1
+  simp only [fview, FV.idle, Bool.and_eq_true, beq_iff_eq, Bool.not_eq_true'] at h1
+  exact ⟨ho, h1.1.1.2, h1.1.2, h1.2, rinv_byID_empty i.reqs h1.1.2, h2, h3, h4⟩
+
+/-- **transport_closed_only_when_idle.** The only place the transport is closed is the common tail of a
+critical section, and only in a state that is idle and shutting down: running handlers, pending
+outgoing calls and notifications being written all come first. -/
+theorem transport_closed_only_when_idle (s : St) (h : (tail s).transportCloses ≠ s.transportCloses) :
+    s.idle = true ∧ s.shuttingDown = true := by
+  unfold tail finish closeTransport at h
+  by_cases hd : s.done = true
+  · simp only [hd, if_true] at h; split at h <;> exact absurd rfl h
+  · simp only [hd, if_false] at h
+    by_cases hc : (s.idle && s.shuttingDown) = true
+    · simpa using hc
+    · simp only [hc] at h; exact absurd rfl h
+
+/-- **close_cancels_nothing.** The critical section of `Close` only sets `connClosing`: no handler context
+is cancelled, no queued request is dropped, no call is retired — handlers that are already running run
+to completion. -/
+theorem close_cancels_nothing (s s' : St) (h : step s .cl1 = some s') :
+    s'.metas = s.metas ∧ s'.cores = s.cores ∧ s'.queue = s.queue ∧ s'.outCalls = s.outCalls ∧ s'.closing = true := by
+  simp only [step, Option.map_eq_some_iff] at h
+  obtain ⟨s0, h0, rfl⟩ := h
+  simp only [step0] at h0
+  split at h0
+  · cases h0
+  · cases h0
+    have e1 : ∀ X : St, (settle X).metas = X.metas := fun X => settle_metas X
+    have e2 : ∀ X : St, (settle X).cores = X.cores := fun X => congrArg ReqView.cores (reqView_settle X)
+    have e3 : ∀ X : St, (settle X).queue = X.queue := fun X => congrArg ReqView.queue (reqView_settle X)
+    have e4 : ∀ X : St, (settle X).outCalls = X.outCalls := fun X => by
+      have := congrArg CallView.outCalls (show callView (settle X) = callView (settleCalls X) by simp [settle])
+      simpa [callView, settleCalls] using this
+    have e5 : ∀ X : St, (settle X).closing = X.closing := fun X => congrArg FV.closing (fview_settle X)
+    have t5 : ∀ X : St, (tail X).closing = X.closing := fun X => tail_closing X
+    refine ⟨by rw [e1]; simp, by rw [e2]; simp, by rw [e3]; simp, by rw [e4]; simp, by rw [e5, t5]⟩
+
+/-- **no_dispatch_after_shutdown.** A request that reaches the enqueue point (A2) while the connection
+is closing or broken is not handed to the handler: it goes straight to processResult (a call is
+answered with the closing error if the writer still accepts it), and the handler queue is unchanged,
+so after Close begins the queue can only shrink. -/
+theorem no_dispatch_after_shutdown (s s' : St) (r : Nat) (hsd : s.shuttingDown = true)
+    (h : step s (.a2 r) = some s') : s'.queue = s.queue ∧ ∃ k, s'.cores[r]? = some k ∧ (k.pc = .p1 ∨ k.pc = .p2) := by
+  simp only [step, Option.map_eq_some_iff] at h
+  obtain ⟨s0, h0, rfl⟩ := h
+  simp only [step0] at h0
+  split at h0
+  · cases h0
+  · rename_i q hq
+    split at h0
+    · cases h0
+    · cases h0
+      have hv := reqView_settle (tail (beginPR (modMeta s r fun q => { q with rejected := true }) r .reader))
+      rw [reqView_tail, reqView_beginPR] at hv
+      have e3 := congrArg ReqView.queue hv
+      have e2 := congrArg ReqView.cores hv
+      simp only [reqView, ReqView.mod] at e3 e2
+      refine ⟨e3, ?_⟩
+      rw [e2]
+      have hget : (s.cores.modify r fun k => { k with owner := Owner.reader, pc := if k.isCall then ReqPc.p1 else ReqPc.p2 })[r]? =
+          some { q with owner := .reader, pc := if q.isCall then .p1 else .p2 } := by
+        simp [List.getElem?_modify, hq]
+      refine ⟨_, hget, ?_⟩
+      by_cases hc : q.isCall = true
+      · exact Or.inl (by simp [hc])
+      · exact Or.inr (by simp [hc])
+
+/-! ## C01, continued: nothing stays blocked after termination -/
+
+theorem await_inv_aux (ls : List Label) : ∀ (s0 s : St),
+    (∀ n c, getCall s0 n = some c → c.pc = .await → c.ready = none ∧ c.ctxDone = false) →
+    run s0 ls = some s → ∀ n c, getCall s n = some c → c.pc = .await → c.ready = none ∧ c.ctxDone = false := by
+  induction ls with
+  | nil => intro s0 s h0 hr; simp [run] at hr; exact hr ▸ h0
+  | cons l ls ih =>
+    intro s0 s _ hr
+    simp only [run] at hr
+    split at hr
+    · cases hr
+    · rename_i s1 h1
+      exact ih s1 s (await_wait_free s0 s1 l h1) hr
+
+theorem await_inv (ls : List Label) (s : St) (h : run {} ls = some s) :
+    ∀ n c, getCall s n = some c → c.pc = .await → c.ready = none ∧ c.ctxDone = false :=
+  await_inv_aux ls {} s (fun n c hc => by simp [getCall_eq] at hc) h
+
+/-- **done_implies_all_completed.** After termination (`done` closed: the session's Wait has returned)
+every call that was ever registered has its outcome fixed, and no caller is blocked in `Await`:
+a call never stays blocked once the session has terminated. -/
+theorem done_implies_all_completed (ls : List Label) (s : St) (h : run {} ls = some s) (hd : s.done = true) :
+    ∀ n c, getCall s n = some c → (c.registered = true → c.ready.isSome = true) ∧ c.pc ≠ .await := by
+  have i := inv_run ls inv_init h
+  have hoc := (done_implies_quiescent ls s h hd).1
+  intro n c hc
+  have o := i.calls.ok n c hc
+  have hreg : c.registered = true → c.ready.isSome = true := by
+    intro hr
+    cases hrd : c.ready with
+    | some _ => rfl
+    | none => have := o.reg.mpr ⟨hr, hrd⟩; rw [hoc] at this; cases this
+  refine ⟨hreg, fun hpc => ?_⟩
+  obtain ⟨hnone, _⟩ := await_inv ls s h n c hc hpc
+  by_cases hr : c.registered = true
+  · have := hreg hr; simp [hnone] at this
+  · have := o.refused (by simpa using hr) (by simp [hpc]); simp [hnone] at this
+
+/-- **call_after_termination_fails_closed.** A call started after termination reaches C1 in a
+shutting-down state and therefore completes at once with the closed-connection error
+(see `refused_when_shutting_down`). -/
+theorem done_is_shutting_down (ls : List Label) (s : St) (h : run {} ls = some s) (hd : s.done = true) :
+    s.shuttingDown = true := (done_implies_quiescent ls s h hd).2.2.2.2.2.1
 
 end Conn
